@@ -89,6 +89,12 @@ def r2_reshape_agreement(repo: Repo, rep):
             if p.ret is RAISE or p.ret is None:
                 continue
             r = p.ret
+            if isinstance(r, ast.Call) and isinstance(r.func, ast.Attribute) and r.func.attr in ("transpose", "permute", "swapaxes", "movedim") \
+                    and isinstance(r.func.value, ast.Call) and isinstance(r.func.value.func, ast.Attribute) and r.func.value.func.attr in ("reshape", "view"):
+                # the neuron axis is split the other way round and the two new axes swapped afterwards: neuron k lands in component k % dim instead of k // (neurons/dim)
+                rep.violation(R, fi.site(p.ret_node), fi.fq, "the neuron axis is split component-major (dim, neurons/dim) by a plain reshape, as in the sibling net",
+                              dump(r)[:110], "split neuron-major and transposed")
+                continue
             if not (isinstance(r, ast.Call) and isinstance(r.func, ast.Attribute) and r.func.attr in ("reshape", "view") and len(r.args) >= 2):
                 rep.undecided(R, fi.site(p.ret_node), fi.fq, "output.reshape(..., dim, neurons/dim)", dump(r)[:80])
                 continue
@@ -272,6 +278,9 @@ def r4_branch_cache(repo: Repo, rep):
             rep.check(R, ok, fb.site(), fb.fq, "new iteration: remember it, sample new functions, discretise, evaluate the branch", f"calls {calls}, iteration := {dump(upd)}", str(calls))
         elif changed:
             rep.check(R, not calls, fb.site(), fb.fq, "same iteration: the cached branch output is reused", str(calls), str(calls))
+        elif not calls:
+            rep.violation(R, fb.site(p.ret_node) if p.ret_node is not None else fb.site(), fb.fq, "the cached branch output is reused only when the iteration number equals the remembered one",
+                          f"returns without evaluating the branch under {[(dump(g)[:50], pol) for g, pol, k in p.guards if k == 'if']}", "reuse without the iteration test")
         else:
             rep.undecided(R, fb.site(), fb.fq, "guard `iteration_num != function_set.current_iteration_num`", "not found")
 
